@@ -643,3 +643,29 @@ def failure_edges(body, prov, pred):
         ve = variant_edges(body, b) or {}
         out.append((b, t, [tg for name, tg in ve.items() if name in FAIL_VARIANTS]))
     return out
+
+
+def success_value(t):
+    """Look through `x?`, `.ok_or(e)?`, `.ok()?`, `.unwrap()`: the term of the value carried by the success variant."""
+    for _ in range(8):
+        if t[0] == "call" and (t[1] or "").split("::")[-1] in ("unwrap", "expect", "unwrap_unchecked") and t[2]:
+            inner = t[2][0]
+        elif t[0] == "f" and t[2] == "0" and t[1][0] == "dc" and t[1][2] in ("Continue", "Ok", "Some"):
+            inner = t[1][1]
+        else:
+            return t
+        if inner[0] == "call" and (inner[1] or "").endswith("::branch") and inner[2]:
+            inner = inner[2][0]
+        inner = through_adapters(inner)
+        if inner[0] == "phi":
+            good = [x for x in inner[1] if x[0] == "agg" and x[2] in ("Ok", "Some", "Continue")]
+            if len(good) != 1:
+                return t
+            inner = good[0]
+        if inner[0] == "agg" and inner[2] in ("Ok", "Some", "Continue") and inner[3]:
+            t = inner[3][0][1]
+            continue
+        if inner[0] == "call" and (inner[1] or "").split("::")[-1] in ("get", "get_mut", "first", "last", "split_first", "split_last", "checked_sub", "checked_add"):
+            return ("some", inner)
+        return t
+    return t
